@@ -354,6 +354,68 @@ proof fn lemma_divlimb_final(qv: int, r: int, uv: int, dv: int, ps: int)
     assert(x >= 0) by (nonlinear_arith) requires x * ps >= 0, ps > 0;
 }
 
+// ---------------------------------------------------------------- wide remainder
+/// changing only limb 0 changes the value by the difference of the two limbs
+proof fn lemma_val_set0(s0: Seq<Limb>, s1: Seq<Limb>, n: nat)
+    requires n >= 1, forall|k: int| 1 <= k < n ==> s1[k] == s0[k]
+    ensures val(s1, n) == val(s0, n) + s1[0].0 as int - s0[0].0 as int
+{
+    lemma_tv_ext(s0, s1, 1, n);
+    lemma_bp1();
+    assert(val(s0, 1) == val(s0, 0) + s0[0].0 as int * bp(0));
+    assert(val(s1, 1) == val(s1, 0) + s1[0].0 as int * bp(0));
+}
+
+/// or-ing the bits shifted out of the low half into limb 0 of the shifted high half is an addition
+proof fn lemma_wide_or(h0: u64, c: u64, s: u32, hsv: int, hv: int, xhi: int, lov: int, lv: int, n: nat)
+    requires
+        s < 64, n >= 1,
+        hsv + xhi * bp(n) == hv * p2(s as nat), hsv >= 0, hsv % B() == h0 as int,
+        lov + c as int * bp(n) == lv * p2(s as nat), 0 <= lov, 0 <= lv < bp(n),
+    ensures (h0 | c) as int == h0 as int + c as int, (c as int) < p2(s as nat)
+{
+    let ps = p2(s as nat); let pr = p2((64 - s) as nat); let b = B();
+    lemma_pow2_pos(s as nat); lemma_pow2_64();
+    lemma_pow2_adds(s as nat, (64 - s) as nat);
+    assert(ps * pr == b);
+    lemma_divlimb_init(lov, c as int, lv, ps, 1, n);
+    // h0 is a multiple of 2^s
+    let g = hsv / b; let p1 = bp((n - 1) as nat); let bn = bp(n);
+    lemma_fundamental_div_mod(hsv, b);
+    lemma_bp_succ((n - 1) as nat);
+    let e1 = xhi * (pr * p1); let e2 = pr * g;
+    assert(xhi * bn == e1 * ps) by (nonlinear_arith) requires bn == b * p1, b == ps * pr, e1 == xhi * (pr * p1);
+    assert(b * g == e2 * ps) by (nonlinear_arith) requires b == ps * pr, e2 == pr * g;
+    let k = hv - e1 - e2;
+    assert(h0 as int == k * ps) by (nonlinear_arith)
+        requires h0 as int == hsv - b * g, hsv + xhi * bn == hv * ps, xhi * bn == e1 * ps, b * g == e2 * ps, k == hv - e1 - e2;
+    lemma_mod_multiples_basic(k, ps);
+    let d = 1u64 << s;
+    assert(d == 1u64 << (s as u64)) by (bit_vector) requires d == 1u64 << s, s < 64;
+    lemma_one_shl(s as u64);
+    assert(d as int == ps);
+    assert(h0 % d == 0);
+    assert(h0 % d == 0 && c < d ==> (h0 | c) == add(h0, c) && h0 <= 0xffff_ffff_ffff_ffffu64 - c) by (bit_vector)
+        requires d == 1u64 << s, s < 64;
+    let w = (h0 + c) as u64;
+    lemma_wadd_u64(h0, c, w);
+}
+
+/// the two remainder passes (high half then low half) together divide the wide value
+proof fn lemma_wide_combine(lv: int, hv: int, lov: int, hsv: int, c: int, xhi: int, bl: int, ps: int, dn: int, qa: int, r1: int, qb: int, r: int)
+    requires
+        lov + c * bl == lv * ps, hsv + xhi * bl == hv * ps,
+        qa * dn + r1 == hsv + c + xhi * bl,
+        qb * dn + r == lov + r1 * bl,
+    ensures (qa * bl + qb) * dn + r == (lv + hv * bl) * ps
+{
+    assert((lv + hv * bl) * ps == lv * ps + (hv * ps) * bl) by (nonlinear_arith);
+    assert((hsv + xhi * bl) * bl == hsv * bl + (xhi * bl) * bl) by (nonlinear_arith);
+    assert((qa * dn + r1) * bl == (qa * bl) * dn + r1 * bl) by (nonlinear_arith);
+    assert((hsv + c + xhi * bl) * bl == hsv * bl + c * bl + (xhi * bl) * bl) by (nonlinear_arith);
+    assert((qa * bl + qb) * dn == (qa * bl) * dn + qb * dn) by (nonlinear_arith);
+}
+
 //@@ subst \b(Self|Uint)::(ZERO|ONE|MAX|BITS|LOG2_BITS)\b(?!\() => \1::\2()
 //@@ subst \bUint::<(\w+)>::(ZERO|ONE|MAX|BITS)\b(?!\() => Uint::<\1>::\2()
 //@@ fn src/uint/div_limb.rs | - | reciprocal | stub | props C02 C11
@@ -703,8 +765,7 @@ pub const fn rem_limb_with_reciprocal<const L: usize>(
     Limb(r >> reciprocal.shift)
 }
 //@@ end
-//@@ fn src/uint/div_limb.rs | - | rem_limb_with_reciprocal_wide | stub | props C02 C11
-#[verifier::external_body]
+//@@ fn src/uint/div_limb.rs | - | rem_limb_with_reciprocal_wide | body | props C02 C11
 pub const fn rem_limb_with_reciprocal_wide<const L: usize>(
     lo_hi: (&Uint<L>, &Uint<L>),
     reciprocal: &Reciprocal,
@@ -714,7 +775,106 @@ pub const fn rem_limb_with_reciprocal_wide<const L: usize>(
     ensures ret__.0 as int == (lo_hi.0.v() + lo_hi.1.v() * bp(L as nat)) % reciprocal.dv()
 //@-
 {
-    unimplemented!()
+    let (lo_shifted, carry) = lo_hi.0.shl_limb(reciprocal.shift);
+    let (mut hi_shifted, xhi) = lo_hi.1.shl_limb(reciprocal.shift);
+//@+
+    let ghost dn = reciprocal.divisor_normalized as int;
+    let ghost ps = p2(reciprocal.shift as nat);
+    let ghost lv = lo_hi.0.v(); let ghost hv = lo_hi.1.v();
+    let ghost hs0 = hi_shifted.limbs@;
+    let ghost lov = lo_shifted.v(); let ghost hsv = hi_shifted.v();
+    proof {
+        lemma_val_bound(lo_hi.0.limbs@, L as nat); lemma_val_bound(lo_hi.1.limbs@, L as nat);
+        lemma_val_bound(lo_shifted.limbs@, L as nat); lemma_val_bound(hs0, L as nat);
+        lemma_pow2_pos(reciprocal.shift as nat);
+        lemma_divlimb_init(hsv, xhi.0 as int, hv, ps, reciprocal.dv(), L as nat);
+        lemma_val_low(hs0, L as nat);
+        lemma_wide_or(hs0[0].0, carry.0, reciprocal.shift, hsv, hv, xhi.0 as int, lov, lv, L as nat);
+    }
+//@-
+    hi_shifted.limbs[0].0 |= carry.0;
+//@+
+    let ghost t1 = hsv + carry.0 as int + xhi.0 as int * bp(L as nat);
+    let ghost mut q1: Seq<Limb> = Seq::new(L as nat, |k: int| Limb(0));
+    proof {
+        lemma_val_set0(hs0, hi_shifted.limbs@, L as nat);
+        assert(tv(q1, L as nat, L as nat) * dn == 0);
+    }
+//@-
+    let mut r = xhi.0;
+    let mut j = L;
+    while j > 0
+//@+
+        invariant
+            0 <= j <= L, reciprocal.wf(), dn == reciprocal.divisor_normalized as int, r < reciprocal.divisor_normalized,
+            q1.len() == L,
+            tv(q1, j as nat, L as nat) * dn + r as int * bp(j as nat) + val(hi_shifted.limbs@, j as nat) == t1,
+        decreases j
+//@-
+    {
+        j -= 1;
+//@+
+        let ghost r_old = r;
+//@-
+        let (_, rj) = div2by1(r, hi_shifted.as_limbs()[j].0, reciprocal);
+        r = rj;
+//@+
+        proof {
+            let qj = (r_old as int * B() + hi_shifted.limbs@[j as int].0 as int) / dn;
+            lemma_divlimb_quot(r_old as int, hi_shifted.limbs@[j as int].0 as int, dn, rj as int);
+            let qold = q1;
+            q1 = q1.update(j as int, Limb(qj as u64));
+            lemma_divlimb_step(qold, q1, hi_shifted.limbs@, j as nat, L as nat, dn, r_old as int, qj, rj as int, t1);
+        }
+//@-
+    }
+//@+
+    let ghost r1 = r as int;
+    let ghost t2 = lov + r1 * bp(L as nat);
+    let ghost mut q2: Seq<Limb> = Seq::new(L as nat, |k: int| Limb(0));
+    proof {
+        lemma_bp1();
+        assert(val(q1, L as nat) * dn + r1 == t1);
+        assert(tv(q2, L as nat, L as nat) * dn == 0);
+    }
+//@-
+    j = L;
+    while j > 0
+//@+
+        invariant
+            0 <= j <= L, reciprocal.wf(), dn == reciprocal.divisor_normalized as int, r < reciprocal.divisor_normalized,
+            q2.len() == L,
+            tv(q2, j as nat, L as nat) * dn + r as int * bp(j as nat) + val(lo_shifted.limbs@, j as nat) == t2,
+        decreases j
+//@-
+    {
+        j -= 1;
+//@+
+        let ghost r_old = r;
+//@-
+        let (_, rj) = div2by1(r, lo_shifted.as_limbs()[j].0, reciprocal);
+        r = rj;
+//@+
+        proof {
+            let qj = (r_old as int * B() + lo_shifted.limbs@[j as int].0 as int) / dn;
+            lemma_divlimb_quot(r_old as int, lo_shifted.limbs@[j as int].0 as int, dn, rj as int);
+            let qold = q2;
+            q2 = q2.update(j as int, Limb(qj as u64));
+            lemma_divlimb_step(qold, q2, lo_shifted.limbs@, j as nat, L as nat, dn, r_old as int, qj, rj as int, t2);
+        }
+//@-
+    }
+//@+
+    proof {
+        let wv = lv + hv * bp(L as nat);
+        let qv = val(q1, L as nat) * bp(L as nat) + val(q2, L as nat);
+        lemma_wide_combine(lv, hv, lov, hsv, carry.0 as int, xhi.0 as int, bp(L as nat), ps, dn, val(q1, L as nat), r1, val(q2, L as nat), r as int);
+        lemma_divlimb_final(qv, r as int, wv, reciprocal.dv(), ps);
+        lemma_u64_shr_div(r, reciprocal.shift);
+        lemma_fundamental_div_mod_converse(wv, reciprocal.dv(), qv, r as int / ps);
+    }
+//@-
+    Limb(r >> reciprocal.shift)
 }
 //@@ end
 //@@ fn src/uint/div_limb.rs | - | mul_rem | stub | props C02 C11
@@ -728,56 +888,52 @@ pub const fn mul_rem(a: Limb, b: Limb, d: NonZero<Limb>) -> (ret__: Limb)
     unimplemented!()
 }
 //@@ end
-//@@ fn src/uint/div.rs | impl<const LIMBS: usize> Uint<LIMBS> | div_rem_limb_with_reciprocal | stub | props C02 C11 C15
+//@@ fn src/uint/div.rs | impl<const LIMBS: usize> Uint<LIMBS> | div_rem_limb_with_reciprocal | body | props C02 C11 C15
 impl<const LIMBS: usize> Uint<LIMBS> {
-#[verifier::external_body]
 pub const fn div_rem_limb_with_reciprocal(&self, reciprocal: &Reciprocal) -> (ret__: (Self, Limb))
 //@+
     requires LIMBS >= 1, reciprocal.wf(), reciprocal.dv() > 0, reciprocal.divisor_normalized as int == reciprocal.dv() * p2(reciprocal.shift as nat)
     ensures ret__.0.v() * reciprocal.dv() + ret__.1.0 as int == self.v(), (ret__.1.0 as int) < reciprocal.dv()
 //@-
 {
-    unimplemented!()
-}
+        div_rem_limb_with_reciprocal(self, reciprocal)
+    }
 }
 //@@ end
-//@@ fn src/uint/div.rs | impl<const LIMBS: usize> Uint<LIMBS> | div_rem_limb | stub | props C02 C11 C15
+//@@ fn src/uint/div.rs | impl<const LIMBS: usize> Uint<LIMBS> | div_rem_limb | body | props C02 C11 C15
 impl<const LIMBS: usize> Uint<LIMBS> {
-#[verifier::external_body]
 pub const fn div_rem_limb(&self, rhs: NonZero<Limb>) -> (ret__: (Self, Limb))
 //@+
     requires LIMBS >= 1, rhs.0.0 != 0
     ensures ret__.0.v() * rhs.0.0 as int + ret__.1.0 as int == self.v(), ret__.1.0 < rhs.0.0
 //@-
 {
-    unimplemented!()
-}
+        div_rem_limb_with_reciprocal(self, &Reciprocal::new(rhs))
+    }
 }
 //@@ end
-//@@ fn src/uint/div.rs | impl<const LIMBS: usize> Uint<LIMBS> | rem_limb_with_reciprocal | stub | props C02 C11 C15
+//@@ fn src/uint/div.rs | impl<const LIMBS: usize> Uint<LIMBS> | rem_limb_with_reciprocal | body | props C02 C11 C15
 impl<const LIMBS: usize> Uint<LIMBS> {
-#[verifier::external_body]
 pub const fn rem_limb_with_reciprocal(&self, reciprocal: &Reciprocal) -> (ret__: Limb)
 //@+
     requires LIMBS >= 1, reciprocal.wf(), reciprocal.dv() > 0, reciprocal.divisor_normalized as int == reciprocal.dv() * p2(reciprocal.shift as nat)
     ensures ret__.0 as int == self.v() % reciprocal.dv()
 //@-
 {
-    unimplemented!()
-}
+        rem_limb_with_reciprocal(self, reciprocal)
+    }
 }
 //@@ end
-//@@ fn src/uint/div.rs | impl<const LIMBS: usize> Uint<LIMBS> | rem_limb | stub | props C02 C11 C15
+//@@ fn src/uint/div.rs | impl<const LIMBS: usize> Uint<LIMBS> | rem_limb | body | props C02 C11 C15
 impl<const LIMBS: usize> Uint<LIMBS> {
-#[verifier::external_body]
 pub const fn rem_limb(&self, rhs: NonZero<Limb>) -> (ret__: Limb)
 //@+
     requires LIMBS >= 1, rhs.0.0 != 0
     ensures ret__.0 as int == self.v() % (rhs.0.0 as int)
 //@-
 {
-    unimplemented!()
-}
+        rem_limb_with_reciprocal(self, &Reciprocal::new(rhs))
+    }
 }
 //@@ end
 
